@@ -2,7 +2,10 @@
    not depend on, against which the rewrites are proved to preserve BOTH the value and the state (side effects, in order):
      values V with a truthiness test; a store S; reading an identifier has no effect; calls, ==, relational, arithmetic,
      member and update operators are arbitrary state transformers (they may run user code: valueOf, getters, ...);
-     ===, !, typeof, void, &&, ||, ?:, comma and parentheses run no code of their own.
+     ===, !, typeof, void, &&, ||, ??, ?:, comma and parentheses run no code of their own.
+   (?? short-circuits like && and ||: `a ?? b` evaluates b only when a is null / undefined, and no user code runs in
+   between; treating it as an eager "arithmetic" operator would evaluate b unconditionally, which is wrong about JavaScript
+   and would make mayRunCode, which looks through ??, unsound for a reason that is not in the minifier.)
    These are the assumptions the minifier itself makes (js/util.go: "assume that variable usage ... have no side effects"):
    an identifier read is taken to be effect-free and stable, which is false for getters on the global object / `with`
    objects and for TDZ errors; the theorems are modulo that assumption, stated here as the shape of [eval]. *)
@@ -33,6 +36,7 @@ Section Sem.
   Variable unop : string -> V -> S -> V * S.            (* every other unary operator *)
   Variable member : string -> V -> S -> V * S.          (* x.name *)
   Variable index : V -> V -> S -> V * S.                (* x[i] *)
+  Variable nullish : V -> bool.                         (* null or undefined: the test of ?? *)
 
   Definition is_strict (op : string) : bool := String.eqb op "EqEqEqToken" || String.eqb op "NotEqEqToken".
   Definition is_negated_eq (op : string) : bool := String.eqb op "NotEqToken" || String.eqb op "NotEqEqToken".
@@ -56,6 +60,8 @@ Section Sem.
           let '(v, s1) := eval x s in if truthy v then eval y s1 else (v, s1)
         else if String.eqb op "OrToken" then
           let '(v, s1) := eval x s in if truthy v then (v, s1) else eval y s1
+        else if String.eqb op "NullishToken" then
+          let '(v, s1) := eval x s in if nullish v then eval y s1 else (v, s1)
         else if String.eqb op "CommaToken" then
           let '(_, s1) := eval x s in eval y s1
         else if String.eqb op "EqToken" then
@@ -91,6 +97,7 @@ Section Sem.
     Nat.eqb (binp T "EqEqEqToken") OpEquals && Nat.eqb (binp T "NotEqEqToken") OpEquals &&
     negb (Nat.eqb (binp T "CommaToken") OpEquals) && negb (Nat.eqb (binp T "EqToken") OpEquals) &&
     negb (Nat.eqb (binp T "CommaToken") OpCompare) && negb (Nat.eqb (binp T "EqToken") OpCompare) &&
+    negb (Nat.eqb (binp T "NullishToken") OpCompare) &&   (* isBooleanExpr must not take a ?? for a comparison *)
     (* the keys of the map are unique, so plookup finds the entry forallb speaks about *)
     true.
 End Sem.
